@@ -20,67 +20,8 @@ def rule_dec_release(ctx, rep):
     rep.floor("R-ORD-1", 1, "one decrement")
 
 
-def run(ctx, rep):
-    from . import c03
-
-    for tag, F, E in ctx.each():
-        A = balance.analysis(tag, F, E)
-        st = atomics.sites(F)
-        n_inc = n_dec = 0
-        for b, B, bi, t, cls, ordr in st:
-            loc = F.loc(b, t["span"])
-            if cls == model.ATOMIC_OTHER:
-                rep.bad("R-ORD-4", "%s/%s" % (b["key"], atomics.callee_of(t)), "the count word is accessed by %s: only new/fetch_add/fetch_sub/load are covered by the release/acquire counting lemma" % atomics.callee_of(t), loc, tag)
-                continue
-            if cls == model.ATOMIC_CAS:
-                inc = atomics.cas_increment(t)
-                ik = "%s/cas" % b["key"]
-                if not atomics.receiver_is_count(F, B, t):
-                    rep.notes.append("atomic operation on something other than the count field (ignored): %s at %s" % (b["key"], loc))
-                elif inc is None:
-                    rep.bad("R-ORD-4", "%s/%s" % (b["key"], atomics.callee_of(t)), "the count word is changed by a compare-and-swap whose operands are not constants with new > current: only increments of this form are covered by the counting lemma (a decrement must be a Release fetch_sub whose returned value is tested)", loc, tag)
-                else:
-                    n_inc += 1
-                    rep.ok("R-ORD-INC", ik, "increment by compare-and-swap %d -> %d (any ordering is sound: a new handle derives from a live one; a failed swap changes nothing)" % inc, cfg=tag)
-                continue
-            if cls == model.ATOMIC_NEW or cls == model.FENCE:
-                continue
-            if not atomics.receiver_is_count(F, B, t):
-                rep.notes.append("atomic operation on something other than the count field (ignored): %s at %s" % (b["key"], loc))
-                continue
-            ik = "%s/%s" % (b["key"], {model.ATOMIC_RMW_ADD: "increment", model.ATOMIC_RMW_SUB: "decrement", model.ATOMIC_LOAD: "load"}[cls])
-            if isinstance(ordr, tuple) and cls == model.ATOMIC_LOAD and not balance.is_api(F, b):
-                # a private loader that takes the ordering from its callers: every call site must pass a constant (what each
-                # load is used for - gate, query, acquire before the free - is judged where its result is used)
-                bad_cs = []
-                n_cs = 0
-                for cb in F.body_list:
-                    CB = None
-                    for cbl in cb["blocks"]:
-                        ct = cbl["term"]
-                        if ct["k"] == "call" and atomics.callee_of(ct) == b["key"]:
-                            CB = CB or cfg.Body(cb)
-                            n_cs += 1
-                            if not isinstance(atomics.resolve_ordering(ordr, CB, ct), str):
-                                bad_cs.append(F.loc(cb, ct["span"]))
-                if n_cs and not bad_cs:
-                    rep.ok("R-ORD", ik, "ordering chosen by %d call sites, each a constant" % n_cs, cfg=tag)
-                    continue
-                rep.bad("R-ORD", ik, "memory ordering operand is a parameter and not every call site passes a constant (%s): cannot check the lemma's premise" % (bad_cs or "no call site"), loc, tag)
-                continue
-            if ordr is None or isinstance(ordr, tuple):
-                rep.bad("R-ORD", ik, "memory ordering operand is not a constant: cannot check the lemma's premise", loc, tag)
-                continue
-            if cls == model.ATOMIC_RMW_SUB:
-                n_dec += 1
-                if ordr in atomics.RELEASE_OK:
-                    rep.ok("R-ORD-1", ik, "decrement is %s" % ordr, cfg=tag)
-                else:
-                    rep.bad("R-ORD-1", ik, "the decrement of the count word is %s; it must be Release or stronger so that every access made through the released handle happens-before the destruction" % ordr, loc, tag)
-                rep.sample({"rule": "R-ORD-1", "site": ik, "ordering": ordr, "at": loc}) if tag == "default" else None
-            elif cls == model.ATOMIC_RMW_ADD:
-                n_inc += 1
-                rep.ok("R-ORD-INC", ik, "increment is %s (any ordering is sound: a new handle derives from a live one)" % ordr, cfg=tag)
+def _release_order(F, E, rep, tag):
+    if True:
         # R-ORD-2/3/6 on every release unit (the body with the direct decrement, private helpers inlined, or the caller it
         # reports its verdict to)
         for b0, unit, paths in balance.release_units(F, E):
@@ -145,6 +86,77 @@ def run(ctx, rep):
                 else:
                     rep.ok("R-ORD-2", key + "/acquire", cfg=tag)
                     rep.ok("R-ORD-6", key + "/after-free", cfg=tag)
+
+
+def rule_release_order(ctx, rep):
+    """R-ORD-2/3/6 alone: the last owner - whoever observed 1 from its own Release decrement - performs an acquire before it
+    destroys, frees or moves out the value (premise of C03 for sole ownership granted on that basis, e.g. an `into_inner`)."""
+    for tag, F, E in ctx.each():
+        _release_order(F, E, rep, tag)
+
+
+def run(ctx, rep):
+    from . import c03
+
+    for tag, F, E in ctx.each():
+        A = balance.analysis(tag, F, E)
+        st = atomics.sites(F)
+        n_inc = n_dec = 0
+        for b, B, bi, t, cls, ordr in st:
+            loc = F.loc(b, t["span"])
+            if cls == model.ATOMIC_OTHER:
+                rep.bad("R-ORD-4", "%s/%s" % (b["key"], atomics.callee_of(t)), "the count word is accessed by %s: only new/fetch_add/fetch_sub/load are covered by the release/acquire counting lemma" % atomics.callee_of(t), loc, tag)
+                continue
+            if cls == model.ATOMIC_CAS:
+                inc = atomics.cas_increment(t)
+                ik = "%s/cas" % b["key"]
+                if not atomics.receiver_is_count(F, B, t):
+                    rep.notes.append("atomic operation on something other than the count field (ignored): %s at %s" % (b["key"], loc))
+                elif inc is None:
+                    rep.bad("R-ORD-4", "%s/%s" % (b["key"], atomics.callee_of(t)), "the count word is changed by a compare-and-swap whose operands are not constants with new > current: only increments of this form are covered by the counting lemma (a decrement must be a Release fetch_sub whose returned value is tested)", loc, tag)
+                else:
+                    n_inc += 1
+                    rep.ok("R-ORD-INC", ik, "increment by compare-and-swap %d -> %d (any ordering is sound: a new handle derives from a live one; a failed swap changes nothing)" % inc, cfg=tag)
+                continue
+            if cls == model.ATOMIC_NEW or cls == model.FENCE:
+                continue
+            if not atomics.receiver_is_count(F, B, t):
+                rep.notes.append("atomic operation on something other than the count field (ignored): %s at %s" % (b["key"], loc))
+                continue
+            ik = "%s/%s" % (b["key"], {model.ATOMIC_RMW_ADD: "increment", model.ATOMIC_RMW_SUB: "decrement", model.ATOMIC_LOAD: "load"}[cls])
+            if isinstance(ordr, tuple) and cls == model.ATOMIC_LOAD and not balance.is_api(F, b):
+                # a private loader that takes the ordering from its callers: every call site must pass a constant (what each
+                # load is used for - gate, query, acquire before the free - is judged where its result is used)
+                bad_cs = []
+                n_cs = 0
+                for cb in F.body_list:
+                    CB = None
+                    for cbl in cb["blocks"]:
+                        ct = cbl["term"]
+                        if ct["k"] == "call" and atomics.callee_of(ct) == b["key"]:
+                            CB = CB or cfg.Body(cb)
+                            n_cs += 1
+                            if not isinstance(atomics.resolve_ordering(ordr, CB, ct), str):
+                                bad_cs.append(F.loc(cb, ct["span"]))
+                if n_cs and not bad_cs:
+                    rep.ok("R-ORD", ik, "ordering chosen by %d call sites, each a constant" % n_cs, cfg=tag)
+                    continue
+                rep.bad("R-ORD", ik, "memory ordering operand is a parameter and not every call site passes a constant (%s): cannot check the lemma's premise" % (bad_cs or "no call site"), loc, tag)
+                continue
+            if ordr is None or isinstance(ordr, tuple):
+                rep.bad("R-ORD", ik, "memory ordering operand is not a constant: cannot check the lemma's premise", loc, tag)
+                continue
+            if cls == model.ATOMIC_RMW_SUB:
+                n_dec += 1
+                if ordr in atomics.RELEASE_OK:
+                    rep.ok("R-ORD-1", ik, "decrement is %s" % ordr, cfg=tag)
+                else:
+                    rep.bad("R-ORD-1", ik, "the decrement of the count word is %s; it must be Release or stronger so that every access made through the released handle happens-before the destruction" % ordr, loc, tag)
+                rep.sample({"rule": "R-ORD-1", "site": ik, "ordering": ordr, "at": loc}) if tag == "default" else None
+            elif cls == model.ATOMIC_RMW_ADD:
+                n_inc += 1
+                rep.ok("R-ORD-INC", ik, "increment is %s (any ordering is sound: a new handle derives from a live one)" % ordr, cfg=tag)
+        _release_order(F, E, rep, tag)
         # R-ORD-2 (no-decrement form): a free reached by an owner without decrementing needs an acquire observation `count == 1`
         from . import c03
 
